@@ -226,6 +226,62 @@ def run(ctx):
         R.ob('C13.forget', ('close notification', 'entry forgotten only when dead'), ok,
              'a key\'s entry is removed only under a check that none of its channels is alive (a stale notification must not erase a live entry)', [g.loc(t)], '; '.join(det))
 
+    # (3b) an admitted channel is not dropped: after the listener was polled, no way back to the loop head (or out of the function) exists that does not
+    # first look at what the listener returned — a `continue` taken for another reason would discard a channel that was already admitted and counted
+    pn_ = F.trait_method('Stream', 'MaxChannelsPerKey', 'poll_next')
+    lsrc = [(g, bb, t) for g in reach for bb, t in g.calls() if callee_is(t, 'poll_next_unpin', 'Stream::poll_next') and 'Fuse<' in (t.get('self_ty') or '')]
+    lcalls = []
+    for bb, t in pn_.calls():
+        c = F.callee_fn(t)
+        if c is not None and any(x[0].id == y.id for x in lsrc for y in reachable_local_fns(F, c)):
+            lcalls.append((bb, t))
+        elif callee_is(t, 'poll_next_unpin', 'Stream::poll_next') and 'Fuse<' in (t.get('self_ty') or ''):
+            lcalls.append((bb, t))
+    R.ob('C13.yield', ('<MaxChannelsPerKey as Stream>::poll_next', 'polls the listener at one site'), len(lcalls) == 1,
+         'the stream polls its listener at one site per iteration', [pn_.loc(t) for _, t in lcalls] or [pn_.loc(pn_.d)])
+    if len(lcalls) == 1:
+        lb, lt = lcalls[0]
+        lterm = ('call', pn_.id, lb)
+        disc = set()
+        for i, b in enumerate(pn_.blocks):
+            if b['cleanup'] or b['term']['k'] != 'switch' or b['term']['discr']['k'] not in ('copy', 'move'):
+                continue
+            tt = P.operand(pn_, b['term']['discr'], at=i)
+            if tt[0] == 'discr' and any(P.unbound(x) == lterm for x, _ in P.root(tt[1], inline=False)):
+                disc.add(i)
+        # blocks reachable from the poll's continuation without passing a switch on its result
+        start = lt.get('target')
+        seen_, work_ = set(), [start] if start is not None else []
+        escaped = []
+        while work_:
+            x = work_.pop()
+            if x in seen_ or pn_.blocks[x]['cleanup']:
+                continue
+            seen_.add(x)
+            if x in disc:
+                continue
+            tm = pn_.blocks[x]['term']
+            if x == lb:
+                escaped.append('back to the listener poll')
+                continue
+            if tm['k'] == 'return':
+                escaped.append('return')
+                continue
+            succ = []
+            if tm['k'] == 'call':
+                if tm.get('target') is not None:
+                    succ.append(tm['target'])
+            elif tm['k'] == 'switch':
+                succ += [y for _, y in tm['targets']] + [tm['otherwise']]
+            elif tm['k'] in ('goto', 'drop', 'assert'):
+                succ.append(tm['t'])
+            elif tm['k'] == 'yield':
+                succ.append(tm.get('resume'))
+            work_ += [y for y in succ if y is not None]
+        R.ob('C13.yield', ('<MaxChannelsPerKey as Stream>::poll_next', 'the listener\'s result is examined before looping or returning'), bool(disc) and not escaped,
+             'after the listener was polled every path first branches on what it returned: an admitted channel cannot be discarded by a continue taken for another reason',
+             [pn_.loc(lt)], 'paths that do not look at the result first: %s' % sorted(set(escaped)))
+
     # (4) Pending only with both sources Pending
     lp = [(g, bb, t) for g in reach for bb, t in g.calls() if callee_is(t, 'poll_next_unpin', 'Stream::poll_next') and 'Fuse<' in (t.get('self_ty') or '')]
     dp = [(g, bb, t) for g in reach for bb, t in g.calls() if callee_is(t, 'mpsc::UnboundedReceiver::poll_recv')]
